@@ -110,6 +110,21 @@ def cast_kinds(fn, what):
     return [k for k in ALLK if k in kinds]
 
 
+def offset_step(fn, what):
+    """form of the statement under `if offset:`"""
+    for node in ast.walk(fn):
+        if isinstance(node, ast.If) and ast.unparse(node.test) == "offset":
+            if len(node.body) != 1 or node.orelse:
+                raise LookupError(f"{what}: `if offset:` has an unrecognised body")
+            st = ast.unparse(node.body[0])
+            if re.fullmatch(r"np\.subtract\((\w+), offset, (out=)?\1\)", st) or re.fullmatch(r"(\w+) -= offset", st):
+                return "outBuffer"
+            if re.fullmatch(r"(\w+) = \1 - offset", st):
+                return "rebind"
+            raise LookupError(f"{what}: offset step not recognised: {st}")
+    raise LookupError(f"{what}: no `if offset:` statement")
+
+
 def source_rules(repo):
     tree = ast.parse(open(os.path.join(repo, "unyt", "array.py"), encoding="utf-8").read())
     fns = {}
@@ -118,7 +133,9 @@ def source_rules(repo):
             for f in node.body:
                 if isinstance(f, ast.FunctionDef):
                     fns[f.name] = f
-    R = {"copyCastKinds": cast_kinds(fns["in_units"], "in_units"), "inBaseCastKinds": cast_kinds(fns["in_base"], "in_base")}
+    R = {"copyCastKinds": cast_kinds(fns["in_units"], "in_units"), "inBaseCastKinds": cast_kinds(fns["in_base"], "in_base"),
+         "copyStep": offset_step(fns["in_units"], "in_units"), "inBaseStep": offset_step(fns["in_base"], "in_base"),
+         "inplaceStep": offset_step(fns["convert_to_units"], "convert_to_units")}
     # _get_conversion_factor: the factor is the quotient of the two base values, returned as it is
     utree = ast.parse(open(os.path.join(repo, "unyt", "unit_object.py"), encoding="utf-8").read())
     g = [n for n in utree.body if isinstance(n, ast.FunctionDef) and n.name == "_get_conversion_factor"]
@@ -126,7 +143,9 @@ def source_rules(repo):
         raise LookupError("_get_conversion_factor not found")
     src = [ast.unparse(n).split("\n")[0] for n in ast.walk(g[0]) if isinstance(n, ast.stmt)]
     for need in ("old_basevalue = old_units.base_value", "new_basevalue = new_units.base_value",
-                 "ratio = old_basevalue / new_basevalue", "return (ratio, None)"):
+                 "ratio = old_basevalue / new_basevalue", "return (ratio, None)",
+                 "old_baseoffset = old_units.base_offset", "new_baseoffset = new_units.base_offset",
+                 "return (ratio, ratio * old_baseoffset - new_baseoffset)"):
         if need not in src:
             raise LookupError(f"_get_conversion_factor: source shape not recognised: {need}")
     return R
@@ -159,6 +178,10 @@ def generate(X):
         table.append((sym, bk))
         by_kind.setdefault(bk, []).append(sym)
     base_kinds = sorted(by_kind)
+    for sym, v in lut.items():
+        if type(v[2]) not in (float, int):
+            raise LookupError(f"base offset of {sym} has type {type(v[2]).__name__}: not modelled (offsetKind)")
+    offset_units = sorted((s_ for s_, v in lut.items() if v[2] != 0), key=lambda s_: (len(s_), s_))
 
     # typing of the quotient, on live base values
     obs_ratio = []
@@ -205,6 +228,9 @@ def generate(X):
                 if r != r0:
                     raise RuntimeError(f"0-d and n-d promotion with a {fk} factor differ for {d}")
                 mul.append([fk, D.key(d), D.key(r)])
+                rs = (np.zeros(2, d) - s).dtype
+                if rs != r and d.kind != "b":
+                    raise RuntimeError(f"promotion of array - {fk} differs from array * {fk} for {d}: {rs} vs {r}")
                 try:
                     a = np.zeros(2, d)
                     a *= s
@@ -251,6 +277,57 @@ def generate(X):
                 for r in ROUTES:
                     obs.append([r, fk, D.key(d), isq, outcome(calls[r])])
 
+    # conversions with a truthy offset, per factor kind: (offset unit -> same-dimension unit) and
+    # (offset unit, unit system), found in the live table
+    unit_systems = sorted(k for k in unyt.unit_systems.unit_system_registry if isinstance(k, str))
+    oreps = {}
+    obs_okind = []
+    for fk in fkinds:
+        pair = base = None
+        for a in offset_units:
+            ua = Unit(a)
+            if pair is None:
+                for b in sorted(lut, key=lambda s_: (len(s_), s_)):
+                    if b == a or lut[b][1] != lut[a][1]:
+                        continue
+                    try:
+                        f, off = ua.get_conversion_factor(Unit(b), np.dtype("f8"))
+                    except Exception:  # noqa: BLE001
+                        continue
+                    if off and factor_kind(f) == fk:
+                        pair = (a, b)
+                        obs_okind.append([fk, factor_kind(off)])
+                        break
+            if base is None:
+                for sname in unit_systems:
+                    try:
+                        tgt = ua.get_base_equivalent(sname)
+                        f, off = ua.get_conversion_factor(tgt, np.dtype("f8"))
+                    except Exception:  # noqa: BLE001
+                        continue
+                    if off and factor_kind(f) == fk:
+                        base = (a, sname)
+                        obs_okind.append([fk, factor_kind(off)])
+                        break
+            if pair and base:
+                break
+        if pair and base:
+            oreps[fk] = (pair, base)
+    obs_off = []
+    for fk, ((a, b), (a2, sname)) in oreps.items():
+        for d in U:
+            for isq in (False, True):
+                calls = {
+                    "to": lambda: mk(d, isq, a).to(b),
+                    "in_units": lambda: mk(d, isq, a).in_units(b),
+                    "to_value": lambda: mk(d, isq, a).to_value(b),
+                    "in_base": lambda: mk(d, isq, a2).in_base(sname),
+                    "convert_to_units": lambda: inplace(mk(d, isq, a), "convert_to_units", b),
+                    "convert_to_base": lambda: inplace(mk(d, isq, a2), "convert_to_base", sname),
+                }
+                for r in ROUTES:
+                    obs_off.append([r, fk, D.key(d), isq, outcome(calls[r])])
+
     def dl(k):
         return f"⟨.{k[0]}, {k[1]}⟩"
 
@@ -281,8 +358,24 @@ def generate(X):
     L.append("    representative pairs: " + ", ".join(f"{fk}: {a} -> {b}" for fk, (a, b) in reps.items()) + " -/")
     L.append("def observedFactorRoutes : List (Route × FactorKind × Dtype × Bool × Except Err Dtype) := [")
     L.append(",\n".join(f"  ({RN[r]}, {lfk(fk)}, {dl(k)}, {'true' if q else 'false'}, {D.lout(o)})" for r, fk, k, q, o in obs) + "]")
+    L.append("")
+    L.append("/-- the form of the offset step in in_units / in_base / convert_to_units (ast) -/")
+    L.append("def liveOffsetRules : OffsetRules where")
+    L.append(f"  copyStep := .{R['copyStep']}")
+    L.append(f"  inBaseStep := .{R['inBaseStep']}")
+    L.append(f"  inplaceStep := .{R['inplaceStep']}")
+    L.append("")
+    L.append("/-- observed: (type of the ratio, type of the offset) of live conversions with a truthy offset -/")
+    L.append("def observedOffsetKind : List (FactorKind × FactorKind) := [" + ", ".join(f"({lfk(a)}, {lfk(b)})" for a, b in obs_okind) + "]")
+    L.append("")
+    L.append("/-- observed on the live library, conversions with a truthy offset: (route, factor kind, dtype, is-quantity) ↦ outcome;")
+    L.append("    representatives: " + ", ".join(f"{fk}: {p[0]} -> {p[1]}, {q[0]}.in_base({q[1]})" for fk, (p, q) in oreps.items()) + " -/")
+    L.append("def observedOffsetRoutes : List (Route × FactorKind × Dtype × Bool × Except Err Dtype) := [")
+    L.append(",\n".join(f"  ({RN[r]}, {lfk(fk)}, {dl(k)}, {'true' if q else 'false'}, {D.lout(o)})" for r, fk, k, q, o in obs_off) + "]")
     L.append("\nend Unyt.Generated\n")
     X.write_if_changed(os.path.join(X.GEN, "FactorTables.lean"), "\n".join(L))
     return {"rules": R, "base_kinds": base_kinds, "factor_kinds": fkinds, "units_by_kind": {k: v for k, v in by_kind.items() if k != "pyfloat"},
             "n_units": len(table), "reps": {k: list(v) for k, v in reps.items()}, "observed_ratio": obs_ratio,
-            "mul": mul, "imul": imul, "observed_routes": obs}
+            "mul": mul, "imul": imul, "observed_routes": obs,
+            "offset_units": offset_units, "offset_reps": {k: [list(p), list(q)] for k, (p, q) in oreps.items()},
+            "observed_offset_kind": obs_okind, "observed_offset_routes": obs_off}
